@@ -1205,6 +1205,134 @@ func execNsLookup(f []string) vlib.Res {
 	return vlib.Res{Impl: impl, Oracle: or, Tags: tags}
 }
 
+// ---------------------------------------------------------------- processDelegation over a history of referrals
+
+type delegQueryer struct{ subs map[string]*nsSubQueryer }
+
+func (q *delegQueryer) Query(ctx context.Context, req *dns.Msg) (*dns.Msg, error) {
+	if s, ok := q.subs[strings.ToLower(req.Question[0].Name)]; ok {
+		return s.Query(ctx, req)
+	}
+	return nil, errors.New("sub-pipeline failed")
+}
+
+var (
+	delegCur   *resolver.VerifC07Deleg
+	delegQ     *delegQueryer
+	delegNames map[string]bool
+)
+
+// deleg new
+// deleg ref <authZone> <level> <qname> <qclass> <ns section> <extras|-> <subs|->     subs: host=F | host=R:<rr+rr…|->  separated by '|'
+func execDeleg(f []string) vlib.Res {
+	if f[1] == "new" {
+		delegQ = &delegQueryer{subs: map[string]*nsSubQueryer{}}
+		delegCur = resolver.VerifC07NewDeleg(delegQ)
+		delegNames = map[string]bool{}
+		delegSeen = map[string]bool{}
+		return vlib.Res{Impl: "ok", Oracle: "-"}
+	}
+	if delegCur == nil {
+		return vlib.Res{Impl: "no-case", Oracle: "-"}
+	}
+	authZone, level, qname := f[2], vlib.Atoi(f[3]), f[4]
+	q := dns.Question{Name: qname, Qtype: dns.TypeA, Qclass: uint16(vlib.Atoi(f[5]))}
+	abs, rrs := parseNsSection(f[6])
+	resp := new(dns.Msg)
+	resp.Question = []dns.Question{q}
+	resp.Ns = rrs
+	extraRRs, extras := addrRRs(f[7], ";")
+	resp.Extra = extraRRs
+	delegQ.subs = map[string]*nsSubQueryer{}
+	subAbs := map[string][]gextra{}
+	for _, e := range splitList(f[8], "|") {
+		name, val, _ := strings.Cut(e, "=")
+		s := &nsSubQueryer{kind: val[:1]}
+		if s.kind == "R" {
+			var a []gextra
+			s.rrs, a = addrRRs(strings.TrimPrefix(val[1:], ":"), "+")
+			subAbs[strings.ToLower(name)] = a
+		}
+		if _, dup := delegQ.subs[strings.ToLower(name)]; !dup {
+			delegQ.subs[strings.ToLower(name)] = s
+		}
+	}
+	for _, x := range abs {
+		if x.kind == "N" {
+			delegNames[strings.ToLower(x.target)] = true
+		}
+	}
+	for _, e := range extras {
+		delegNames[strings.ToLower(e.owner)] = true
+	}
+	res := delegCur.Process(context.Background(), authZone, level, q, resp)
+	var ds, gs []string
+	dm := delegCur.Delegations()
+	or := "ok"
+	var zones []string
+	for z := range dm {
+		zones = append(zones, z)
+	}
+	sort.Strings(zones)
+	good := func(where string, a netip.Addr) {
+		if oLoopback(a) {
+			or = fail("deleg/"+where+"-holds-loopback", "%s", a)
+		} else if ownIfaces[a.Unmap()] {
+			or = fail("deleg/"+where+"-holds-local-interface-address", "%s", a)
+		}
+	}
+	for _, z := range zones {
+		var hs []string
+		for _, a := range dm[z] {
+			ap, err := netip.ParseAddrPort(a)
+			if err != nil {
+				hs = append(hs, "bad:"+a)
+				continue
+			}
+			hs = append(hs, addrHex(ap.Addr()))
+			good("delegation", ap.Addr())
+		}
+		sort.Strings(hs)
+		ds = append(ds, strings.ToLower(z)+"="+strings.Join(hs, "+"))
+	}
+	var names []string
+	for n := range delegNames {
+		names = append(names, n)
+	}
+	sort.Strings(names)
+	for _, n := range names {
+		if as := delegCur.Glue(n); len(as) > 0 {
+			var hs []string
+			for _, a := range as {
+				hs = append(hs, addrHex(a))
+				good("glue-cache", a)
+			}
+			gs = append(gs, n+"="+strings.Join(hs, "+"))
+		}
+	}
+	// the delegation this referral stored (if it is new) must be strictly below the zone asked and on the path
+	var first *nsrr
+	for i := range abs {
+		if abs[i].kind == "N" {
+			first = &abs[i]
+			break
+		}
+	}
+	if first != nil && or == "ok" {
+		if _, stored := dm[first.owner]; stored && (res == "maxdepth" || res == "nil") {
+			if o := referralOracle("deleg", first.owner, authZone, qname); o != "ok" && !delegSeen[strings.ToLower(first.owner)] {
+				or = o
+			}
+		}
+	}
+	for z := range dm {
+		delegSeen[strings.ToLower(z)] = true
+	}
+	return vlib.Res{Impl: fmt.Sprintf("res=%s d=%s g=%s", res, listOrDash(ds), listOrDash(gs)), Oracle: or, Tags: "nt,deleg,deleg-" + res}
+}
+
+var delegSeen = map[string]bool{}
+
 // ---------------------------------------------------------------- the alias chase (Cache.additionalAnswer)
 
 type chRR struct {
